@@ -143,3 +143,46 @@ Definition estimate_gas (ex : N -> exres) (gas_cap : N) (args_gas : option N) (b
 (* executable(gas) is a query on the same context every time *)
 Definition exec_of (ctx : kv) (ev : list N) (call : N -> prog exres) : N -> exres :=
   fun g => run_no_commit ctx ev (call g).
+
+(* ------------------------------------------------------------------ histories *)
+
+(* queries, check-tx trial executions and delivered transactions interleaved in any order *)
+Inductive hop (R : Type) : Type :=
+| HQuery (p : prog R)                     (* eth_call, an estimator probe, a traced transaction: commit=false *)
+| HTrial (rollback : overlay) (p : prog R) (* mempool admission: trial execution on a dropped branch *)
+| HDeliver (p : prog R) (destroy : overlay). (* a delivered transaction: commit=true *)
+Arguments HQuery {R} p.
+Arguments HTrial {R} rollback p.
+Arguments HDeliver {R} p destroy.
+
+Record hres (R : Type) := mkHres {
+  h_state : kv;            (* the committed state after the history *)
+  h_answers : list R;      (* answers of the queries and trial executions, in order *)
+  h_delivered : list R     (* results of the delivered transactions, in order *)
+}.
+Arguments mkHres {R}.
+Arguments h_state {R}.
+Arguments h_answers {R}.
+Arguments h_delivered {R}.
+
+(* the state a query leaves behind is whatever its StateDB did to the context it was built on
+   (ctx_after_no_commit), not "ctx" by definition: that it IS ctx is the theorem *)
+Fixpoint run_hist {R} (ctx : kv) (h : list (hop R)) : hres R :=
+  match h with
+  | [] => mkHres ctx [] []
+  | HQuery p :: r =>
+      let x := run_no_commit ctx [] p in
+      let rest := run_hist (fst (ctx_after_no_commit ctx [] p)) r in
+      mkHres (h_state rest) (x :: h_answers rest) (h_delivered rest)
+  | HTrial rb p :: r =>
+      let '(c', x) := trial_exec ctx [] rb p in
+      let rest := run_hist (fst c') r in
+      mkHres (h_state rest) (x :: h_answers rest) (h_delivered rest)
+  | HDeliver p d :: r =>
+      let '(c', x) := run_commit ctx [] p d in
+      let rest := run_hist c' r in
+      mkHres (h_state rest) (h_answers rest) (x :: h_delivered rest)
+  end.
+
+Definition is_deliver {R} (o : hop R) : bool := match o with HDeliver _ _ => true | _ => false end.
+Definition hop_commit_free {R} (o : hop R) : Prop := match o with HQuery p => commit_free p | _ => True end.
